@@ -153,9 +153,11 @@ def run_history(dirpath, pool, job):
                         with open(tmp, "w") as f:
                             f.write(d["source"])
                         os.replace(tmp, path)
-                    spec = importlib.util.spec_from_file_location("c11_m_" + name, path)
+                    # revisions of one design file share the module name (not the file)
+                    modname = "c11_m_" + d.get("modname", name)
+                    spec = importlib.util.spec_from_file_location(modname, path)
                     mod = importlib.util.module_from_spec(spec)
-                    sys.modules["c11_m_" + name] = mod
+                    sys.modules[modname] = mod
                     spec.loader.exec_module(mod)
                     mods[name] = mod
                 if not name.startswith("up:"):
